@@ -70,12 +70,19 @@ and pos_bits = function M.XH -> "1" | M.XO p -> pos_bits p ^ "0" | M.XI p -> pos
 
 let q_to_string (x : M.q) : string = let r = M.qred x in z_to_string r.M.qnum ^ "/" ^ pos_bits r.M.qden
 
-let rec jdoc_to_string (d : M.jdoc) : string =
+let cmp_str (a : M.str) (b : M.str) : int =
+  match M.str_cmp a b with M.Eq -> 0 | M.Lt -> -1 | M.Gt -> 1
+
+(* object members sorted by name, except inside the value of a "properties" member *)
+let rec jdoc_to_string_p (keep : bool) (d : M.jdoc) : string =
   match d with
   | M.DNull -> "null"
   | M.DBool true -> "t"
   | M.DBool false -> "f"
   | M.DNum (_, x) -> "n" ^ q_to_string x
   | M.DStr s -> "s[" ^ ints_of_str s ^ "]"
-  | M.DArr l -> "a(" ^ String.concat "," (List.map jdoc_to_string l) ^ ")"
-  | M.DObj m -> "o(" ^ String.concat "," (List.map (fun (k, v) -> "[" ^ ints_of_str k ^ "]:" ^ jdoc_to_string v) m) ^ ")"
+  | M.DArr l -> "a(" ^ String.concat "," (List.map (jdoc_to_string_p false) l) ^ ")"
+  | M.DObj m ->
+      let m = if keep then m else List.stable_sort (fun (a, _) (b, _) -> cmp_str a b) m in
+      "o(" ^ String.concat "," (List.map (fun (k, v) -> "[" ^ ints_of_str k ^ "]:" ^ jdoc_to_string_p (k = str_of_string "properties") v) m) ^ ")"
+let jdoc_to_string (d : M.jdoc) : string = jdoc_to_string_p false d
